@@ -353,6 +353,7 @@ func (bs *blockState) load(lv lvalue, ins ssa.Instruction) Val {
 		// every stored Go value is within the range of its type
 		bs.e.assume(bs.g, bs.e.typeFacts(v))
 		bs.e.assume(bs.g, bs.e.allocatedFacts(bs.st, v))
+		bs.e.assume(bs.g, bs.e.inputBound(v))
 	}
 	return v
 }
@@ -365,6 +366,7 @@ func (bs *blockState) load0(lv lvalue, ins ssa.Instruction) Val {
 		return Val{lv.typ, full.C[lv.lo:lv.hi]}
 	case "field":
 		bs.assertG(fmt.Sprintf("nil.%d", e.ordinal("nil")), "nil", not(eq(lv.obj, "0")), "nil dereference", ins)
+		bs.monAccess([]string{fieldKey(lv.stT, lv.fidx, 0)}, typeKey(lv.stT)+"."+lv.stT.Underlying().(*types.Struct).Field(lv.fidx).Name(), ins)
 		return e.loadField(bs.st, lv.stT, lv.fidx, lv.obj)
 	case "elem":
 		return e.elemAt(bs.st, lv.elemT, lv.obj, lv.idx)
@@ -413,6 +415,7 @@ func (bs *blockState) storeTo(lv lvalue, v Val, ins ssa.Instruction) {
 		e.cellSet(bs.st, lv.alloc, lv.lo, v)
 	case "field":
 		bs.assertG(fmt.Sprintf("nil.%d", e.ordinal("nil")), "nil", not(eq(lv.obj, "0")), "nil dereference", ins)
+		bs.monAccess([]string{fieldKey(lv.stT, lv.fidx, 0)}, typeKey(lv.stT)+"."+lv.stT.Underlying().(*types.Struct).Field(lv.fidx).Name(), ins)
 		e.storeField(bs.st, lv.stT, lv.fidx, lv.obj, v)
 	case "elem":
 		e.elemStore(bs.st, lv.elemT, lv.obj, lv.idx, v)
